@@ -398,11 +398,11 @@ pub fn run_property(spec: PropSpec, opt: Options) -> i32 {
   let a = agg.into_inner().unwrap();
   let wall = t0.elapsed().as_secs_f64();
 
-  // ---- machinery errors first: never a verdict
-  if !a.harness_errors.is_empty() {
-    for e in a.harness_errors.iter().take(5) {
-      eprintln!("machinery error: {}", e);
-    }
+  // ---- machinery errors are never a verdict; they do not mask violations found (and replay-confirmed) elsewhere
+  for e in a.harness_errors.iter().take(5) {
+    eprintln!("machinery error: {}", e);
+  }
+  if !a.harness_errors.is_empty() && a.viols.is_empty() {
     return 2;
   }
   let mut vacuous = vec![];
@@ -514,6 +514,9 @@ pub fn run_property(spec: PropSpec, opt: Options) -> i32 {
     "[{}] tier={} cases={} evaluations={} distinct_nontrivial={} distinct_outcomes={} states={} transitions={} capped={} violations={} known={} wall={:.1}s",
     spec.id, opt.tier.name(), a.cases_run, evaluations, coverage["distinct_nontrivial"], a.outcomes.len(), states, transitions, a.cases_capped, new_violations, coverage["known_findings_hit"].as_array().map(|x| x.len()).unwrap_or(0), wall
   );
+  if rc == 0 && !a.harness_errors.is_empty() {
+    return 2;
+  }
   if rc == 0 && !vacuous.is_empty() {
     eprintln!("machinery error: vacuity guard(s) tripped: {}", vacuous.join("; "));
     return 2;
